@@ -116,6 +116,11 @@ def prefix_reward(cfg, p, t, visits=None):
     base = 1.0 - abs(u - peak)
     noise = (((t * 37 + int(spec.get("seed", 0)) * 11) % 64) - 32) / 64.0 * spec.get("noise", 0.25)
     r = base + noise
+    if spec.get("pattern") == "clip_int":
+        # rewards clipped to [0, 1] the way a user would write it - min(1, max(0, y)) - so that the clipped ones are the Python
+        # ints 0 and 1 and the others floats: 'any finite reward' includes integer-typed ones (seed S-C04-7)
+        y = round((0.5 + 1.6 * (r - 0.6)) * 1024) / 1024.0
+        return min(1, max(0, y))
     if spec.get("negative"):
         r -= 2.0
     return round(r * 1024) / 1024.0
@@ -126,6 +131,8 @@ def initial_domain(ctx, cfg):
     pre = cfg.get("prefix")
     if pre:
         shims.rng_concrete(pre.get("seed", 0) + 1000)
+        if pre.get("intbox"):  # the bounds as Python ints, the way most users write a domain
+            return [[int(PREFIX_BOX[0]), int(PREFIX_BOX[1])] for _ in range(cfg["d"])]
         return [[PREFIX_BOX[0], PREFIX_BOX[1]] for _ in range(cfg["d"])]
     return sym_box(ctx, cfg["d"])
 
